@@ -602,7 +602,7 @@ def _run_impl(case):
     seen = {}
     _CUR.update(app=app, case=case, seen=seen)
 
-    st = FragStream(case['data'], case['sched'])
+    st = F.QuietStream(case['data'], case['sched'])
     env = environ('POST', '/', **{'wsgi.input': st, 'CONTENT_TYPE': ''.join(chr(c) for c in case['ctype'])})
     if case.get('no_ctype'):
         del env['CONTENT_TYPE']
